@@ -153,6 +153,12 @@ func (p *clientStreamProcessorFMP4) processSegment(ctx context.Context, seg *seg
 
 	leadingPartTrack := findFirstPartTrackOfLeadingTrack(parts, p.leadingTrackID)
 	if leadingPartTrack == nil {
+		// parts of a rendition are empty when no sample of the rendition falls
+		// inside the interval of the part, that is decided by the leading stream.
+		if !p.isLeading {
+			return nil
+		}
+
 		return fmt.Errorf("could not find data of leading track")
 	}
 
